@@ -31,6 +31,23 @@ def _validates(f) -> set[str]:
     out: set[str] = set()
     cfg = cfg_of(f)
     raises = cfg.find(lambda n: isinstance(n.stmt, ast.Raise))
+    # the WHOLE name (the parameter, or a local that is just the parameter
+    # stripped): "." / ".." / "" must be refused per hierarchy part — a test
+    # of the whole name lets `cur/../../bob` through
+    whole = set(f.params()) & NAME_PARAMS
+    for nm in {x.id for x in walk_local(f.node) if isinstance(x, ast.Name)}:
+        for v in resolve_local(f, ast.Name(nm, ast.Load())):
+            b = v
+            while isinstance(b, ast.Call) and isinstance(
+                    b.func, ast.Attribute) and b.func.attr in (
+                        'strip', 'rstrip', 'lstrip', 'removesuffix',
+                        'removeprefix', 'lower', 'upper'):
+                b = b.func.value
+            if isinstance(b, ast.Name) and b.id in whole and b is not v:
+                whole.add(nm)
+
+    def per_part(e) -> bool:
+        return not (isinstance(e, ast.Name) and e.id in whole)
     for t in cfg.nodes:
         if t.kind != 'test':
             continue
@@ -44,7 +61,7 @@ def _validates(f) -> set[str]:
         for d in disj:
             s = txt(d)
             if isinstance(d, ast.UnaryOp) and isinstance(d.op, ast.Not) and \
-                    isinstance(d.operand, ast.Name):
+                    isinstance(d.operand, ast.Name) and per_part(d.operand):
                 out.add("''")
             if isinstance(d, ast.Compare):
                 consts = []
@@ -55,13 +72,16 @@ def _validates(f) -> set[str]:
                                                             set, frozenset)) \
                             else [v]
                 eq_or_in = isinstance(d.ops[0], (ast.Eq, ast.In))
+                subj = [c for c in [d.left] + d.comparators
+                        if not const_value(c)[0]]
+                part_level = all(per_part(c) for c in subj)
                 if eq_or_in:
                     for v in consts:
-                        if v == '':
+                        if v == '' and part_level:
                             out.add("''")
-                        if v == '.':
+                        if v == '.' and part_level:
                             out.add("'.'")
-                        if v == '..':
+                        if v == '..' and part_level:
                             out.add("'..'")
                         if v in ('\0', '\x00'):
                             out.add('NUL')
